@@ -63,7 +63,8 @@ def compute_signature(
             # Hash on UFL signature and points
             signature = ufl.algorithms.signature.compute_expression_signature(expr, rn)
             object_signature += signature
-            object_signature += repr(points)
+            # repr(ndarray) rounds to 8 digits and elides the middle of large arrays
+            object_signature += repr(np.asarray(points).tolist())
 
             kind = "expression"
         else:
